@@ -287,6 +287,8 @@ FINDINGS = [
          what="target() failed with SyntaxError (U+FEFF) for a script saved with a UTF-8 byte-order mark, which CPython itself runs", cases=[]),
     dict(id="KF-C17-message-on-one-row", property="C17", status="fixed", commit="fa20204",
          what="lcd.message(top, bottom) on a display with rows=1 wrote the bottom text over the top text (the host skips it)", cases=[]),
+    dict(id="KF-C18-negative-speed", property="C18", status="fixed", commit="af8f6e9",
+         what="lcd.animate(.., speed_ms=-5) (constant or run-time) became a huge unsigned period: the animation never advanced or finished; the host clamps to 0", cases=[]),
     dict(id="KF-C14-lcd-rebind", property="C14", status="open", commit=None,
          what="one name bound first to a parallel LCD and later to an I2C LCD (or the reverse): both libraries are requested, but the emitter keeps only the first display (one header, one object); outside the documented style, like KF-C05-rebind",
          cases=c14_rebind_cases()),
